@@ -59,6 +59,8 @@ def judge(res, cfg, steps, out, tag):
             what = "node-lost" if lost else ("node-appeared" if extra else "attr:" + ",".join(sorted(fields)))
             res.violation(f"stop-loses:{what}:{tag}", f"after stop()+restart (step {idx}): lost nodes {lost}, extra {extra}, changed {changed} {sorted(fields)}",
                           {"cfg": cfg, "steps": steps})
+    for (idx, exc) in out.get("stop_errors", []):
+        res.violation(f"stop-raises:{core.exc_sig(exc)}", f"stop() at step {idx} raised {type(exc).__name__}: {exc}", {"cfg": cfg, "steps": steps})
     if out["transient_after_load"]:
         res.notes.append(f"transient state after load: {out['transient_after_load'][:3]}")
     if out["crashed"]:
